@@ -307,6 +307,110 @@ fn one_case(rng: &mut Rng, case: u64, dir: &str, plan: &Arc<Plan>) -> (String, S
     (case_text, lines.join(" | "), verdict)
 }
 
+/// A pass that spans several journal transactions (T-eq with Model.FailBatches): the buffer-full
+/// trigger is paused (H16), so 1030-2300 entries of one shard wait in the queue and the flush the
+/// harness calls drains them in one pass of two or three batches.  Device calls are failed around
+/// the batch boundaries; flush is repeated a few times.
+fn big_case(rng: &mut Rng, case: u64, dir: &str, plan: &Arc<Plan>) -> (String, String, String) {
+    let path = format!("{dir}/dev/fpb_{}_{case}.feox", std::process::id());
+    let _ = std::fs::remove_file(&path);
+    plan.armed.store(false, Ordering::SeqCst);
+    plan.calls.store(0, Ordering::SeqCst);
+    plan.fail.lock().unwrap().clear();
+    let n = *rng.pick(&[1025u64, 1030, 1100, 2047, 2048, 2050, 2300]);
+    let blocks = 16 + n * 2 + 64;
+    let store = match FeoxStore::builder().device_path(path.clone()).file_size(blocks * 4096).hash_bits(10).enable_caching(false).no_memory_limit().build() {
+        Ok(s) => s,
+        Err(e) => return ("note failpath-big".into(), "note".into(), format!("FAIL cannot-create-store {e}")),
+    };
+    let format = get_format(3);
+    // failing calls: a batch of b entries issues intent (2 calls), b record writes, one fsync, clear (2)
+    let mut failing = Vec::new();
+    let per_batch = |b: u64| b + 5;
+    let first = per_batch(1024);
+    let spots = [0u64, 1, 2, 500, 1025, 1026, 1027, 1028, first, first + 1, first + 2, first + 3, first + 10, 2 * first, 2 * first + 1, 2 * first + 2, 2 * first + 40];
+    for _ in 0..rng.range(0, 3) {
+        let at = if rng.chance(3, 4) { *rng.pick(&spots) } else { rng.below(n + 40) };
+        let after = rng.chance(1, 2);
+        plan.fail.lock().unwrap().insert(at, after);
+        failing.push(at.to_string());
+    }
+    let mut case_text = format!("fpb {} F{}", blocks * 4096, failing.join(","));
+    let mut lines = Vec::new();
+    let mut verdict = "ok".to_string();
+    feoxdb::verif::dev::set_full_trigger_paused(true);
+    let mut shard: Option<usize> = None;
+    let mut next_id = 1u64;
+    let mut accepted: Vec<(u64, Vec<u8>)> = Vec::new();
+    while (accepted.len() as u64) < n {
+        let id = next_id;
+        next_id += 1;
+        let key = format!("fpb{id:06}").into_bytes();
+        let sh = store.verif_write_shard(&key).map(|t| t.0);
+        if shard.is_none() {
+            shard = sh;
+        }
+        if sh != shard {
+            continue;
+        }
+        let want = if rng.chance(1, 12) { 2 } else { 1 };
+        let value = value_of(id, want * 4096 - 100 - rng.below(3000) as usize);
+        let nblocks = format.total_size(key.len(), value.len()).div_ceil(4096);
+        match store.insert(&key, &value) {
+            Ok(_) => {
+                case_text.push_str(&format!(" E{id},{nblocks}"));
+                accepted.push((id, key));
+            }
+            Err(e) => verdict = format!("FAIL insert-refused {e}"),
+        }
+    }
+    plan.armed.store(true, Ordering::SeqCst);
+    for _ in 0..rng.range(1, 3) {
+        let r = store.flush();
+        case_text.push_str(" X");
+        if verdict == "ok" {
+            if let Some((i, (queue, count))) = store.verif_shard_backlog().into_iter().enumerate().find(|(_, (q, c))| q != c) {
+                verdict = format!("FAIL shard-counter-differs-from-its-queue shard={i} queued={queue} counter={count} flush={}", class(&r));
+            }
+        }
+        let (tf, chunks, largest, _frag) = store.verif_free_stats();
+        let snap = store.verif_snapshot();
+        let by_key: std::collections::HashMap<&[u8], u64> = snap.iter().map(|x| (x.key.as_slice(), x.sector)).collect();
+        let mut durable: Vec<String> = Vec::new();
+        let mut unwritten = 0u64;
+        for (id, key) in &accepted {
+            match by_key.get(key.as_slice()) {
+                Some(0) => unwritten += 1,
+                Some(s) => durable.push(format!("{id}:{s}")),
+                None => {
+                    if verdict == "ok" {
+                        verdict = format!("FAIL accepted-key-vanished-from-the-index id={id}");
+                    }
+                }
+            }
+        }
+        if r.is_ok() && unwritten > 0 && verdict == "ok" {
+            verdict = format!("FAIL flush-returned-Ok-but-{unwritten}-keys-accepted-before-it-are-not-on-the-device");
+        }
+        durable.sort();
+        lines.push(format!(
+            "r={} free={},{},{} usage={} durable={} calls={}",
+            class(&r),
+            tf,
+            chunks,
+            largest,
+            store.verif_disk_usage() / 4096,
+            durable.join(","),
+            plan.calls.load(Ordering::SeqCst)
+        ));
+    }
+    plan.armed.store(false, Ordering::SeqCst);
+    feoxdb::verif::dev::set_full_trigger_paused(false);
+    drop(store);
+    let _ = std::fs::remove_file(&path);
+    (case_text, lines.join(" | "), verdict)
+}
+
 pub fn child(opts: &Opts) -> i32 {
     let dir = opts.str("out", "/verif/.build/cases/failpath");
     let sh = opts.u64("shard", 0);
@@ -321,7 +425,14 @@ pub fn child(opts: &Opts) -> i32 {
     let mut out = Out::new(&dir, &format!("s{sh}"));
     let mut rng = Rng::new(seed.wrapping_mul(40_503).wrapping_add(sh * 65_537));
     for case in 0..n {
-        let (c, l, v) = if case % burst_every == burst_every - 1 { burst_case(&mut rng, case, &dir, &plan) } else { one_case(&mut rng, case, &dir, &plan) };
+        let big_every = opts.u64("big_every", 0);
+        let (c, l, v) = if big_every > 0 && case % big_every == big_every - 1 {
+            big_case(&mut rng, case, &dir, &plan)
+        } else if case % burst_every == burst_every - 1 {
+            burst_case(&mut rng, case, &dir, &plan)
+        } else {
+            one_case(&mut rng, case, &dir, &plan)
+        };
         out.emit3(&c, &l, &v);
     }
     let total = out.finish();
@@ -335,11 +446,12 @@ pub fn run(opts: &Opts) -> i32 {
     let shards = opts.u64("shards", 16);
     let n = opts.u64("n", if opts.thorough() { 1500 } else { 60 });
     let burst_every = opts.u64("burst_every", 12);
+    let big_every = opts.u64("big_every", 0);
     let mut handles = Vec::new();
     for sh in 0..shards {
         let dir = dir.clone();
         handles.push(std::thread::spawn(move || {
-            run_child(&["failpathchild".into(), format!("out={dir}"), format!("shard={sh}"), format!("seed={seed}"), format!("n={n}"), format!("burst_every={burst_every}")], 300 + n * 4)
+            run_child(&["failpathchild".into(), format!("out={dir}"), format!("shard={sh}"), format!("seed={seed}"), format!("n={n}"), format!("burst_every={burst_every}"), format!("big_every={big_every}")], 300 + n * 4)
         }));
     }
     let mut total = 0u64;
